@@ -24,7 +24,7 @@ class HDF5Basin(feat_basin.Basin):
             with self._av_check_lock:
                 try:
                     self._available_verified = \
-                        pathlib.Path(self.location).exists()
+                        pathlib.Path(self.location).is_file()
                 except OSError:
                     pass
         return self._available_verified
